@@ -285,6 +285,10 @@ func (w *World) frameFlow(fn *ssa.Function, sp *FrameSpec, inNever func(string) 
 		return name, contains(sp.Aliases, name)
 	}
 	isSourceAddr := func(a ssa.Value) bool {
+		// a package-level slice or map of the module is shared by every interpreter: same rules
+		if g, ok := a.(*ssa.Global); ok && g.Pkg != nil && w.isRepoGlobal(g.Pkg.Pkg.Name(), g.Name()) {
+			return true
+		}
 		fa, ok := a.(*ssa.FieldAddr)
 		if !ok {
 			return false
@@ -385,12 +389,9 @@ func (w *World) frameFlow(fn *ssa.Function, sp *FrameSpec, inNever func(string) 
 					default:
 						issues = append(issues, "program-owned slice/map stored into memory at "+at(in))
 					}
-				} else if fa, ok := i.Addr.(*ssa.FieldAddr); ok && shared(i.Val.Type()) {
-					// an alias field may only be assigned from the program, by an alias writer
-					if name, isAlias := aliasField(fa); isAlias {
-						issues = append(issues, "alias field "+name+" assigned a value that does not come from the program at "+at(in))
-					}
 				}
+				// (an alias field may also be given a value that is not the program's: everything loaded from
+				// it is then held to the read-only rules although it need not be -- stricter, never weaker)
 			case *ssa.MapUpdate:
 				if tv[i.Map] {
 					issues = append(issues, "program-owned map updated at "+at(in))
